@@ -11,6 +11,7 @@ EXTENDS ProxySession, Json
 
 \* shadowed features take few values: the priority order itself is exercised by the un-shadowed ones
 Canonical(q) ==
+    /\ q.area = "nocss" => (q.upgrade = "none" /\ ~q.ping /\ ~q.cond)
     /\ q.upgrade = "websocket" => (~q.ping /\ q.fetchDest \in {"none", "document"} /\ q.accept \in {"none", "html"} /\ q.ext = "none")
     /\ q.ping => (q.fetchDest \in {"none", "script"} /\ q.accept \in {"none", "css"} /\ q.ext = "none")
     /\ FromFetchDest(q.fetchDest) # "other" => (q.accept \in {"none", "image"} /\ q.ext \in {"none", "js"})
